@@ -610,3 +610,35 @@ Proof.
     rewrite (Z0 i (or_introl eq_refl)), IH by (intros j Hj; apply Z0; right; exact Hj). change (inject_Z 0) with 0%Q. lra. }
   rewrite S0 in F. lra.
 Qed.
+
+(* ---------------------------------------------------------------------------------------------- *)
+(* the executable decoder (Euler.solution_walk = model of get_solution_walks, tied to the code by the
+   exact-output correspondence of C14) applied to the solver's values of a layer returns that walk   *)
+Lemma residual_q_resid (L : list PathEnc.edge) (g : PathEnc.edge -> Q) (x : PathEnc.edge -> Z) :
+  (forall e, In e L -> (g e == inject_Z (x e))%Q) ->
+  residual_q (map (fun e => (e, g e)) L) = resid L x.
+Proof.
+  intros H. unfold residual_q, resid. induction L as [|e L IH]; [reflexivity|]. cbn [map flat_map].
+  rewrite IH by (intros e' He'; apply H; right; exact He').
+  assert (R : round_half_even (g e) = x e).
+  { apply round_half_even_near; rewrite (H e (or_introl eq_refl)); lra. }
+  rewrite R. reflexivity.
+Qed.
+
+Theorem walk_layer_solution_walk (I : walk_inst) (a : var -> Q) i :
+  let G := w_graph I in let E := g_edges G in let s := g_src G in let t := g_snk G in
+  wf_stg G -> Forall (sat_col a) (walk_cols I) -> Forall (sat_row a) (walk_rows I) ->
+  o_allow_empty (w_opts I) = false -> In i (layers (w_k I)) ->
+  exists w', solution_walk (map (fun e => (e, a (evar e i))) E) s t = Some (O, w') /\
+             (forall e, In e E -> count_e e (pairs (s :: w' ++ [t])) = Z.to_nat (xint a i e)) /\
+             (forall e, ~ In e E -> count_e e (pairs (s :: w' ++ [t])) = 0%nat).
+Proof.
+  intros G E s t WF Hc Hr Hae Hi.
+  destruct (walk_layer_is_one_walk I a WF Hc Hr i Hae Hi) as (w & R & Hh & Hl & _ & C1 & C0).
+  fold G E s t in R, Hh, Hl, C1, C0.
+  destruct (strip_st_spec s t w (PathEncProofs.wf_st G (wfs_graph G WF)) Hh Hl) as (w' & Ew & S).
+  exists w'. unfold solution_walk.
+  rewrite (residual_q_resid E (fun e => a (evar e i)) (xint a i)).
+  - rewrite R. cbn [length]. rewrite S. split; [reflexivity|]. rewrite <- Ew. split; assumption.
+  - intros e He. apply (edge_val I a Hc i e Hi He).
+Qed.
